@@ -150,7 +150,16 @@ func drawRequest(rt *rapid.T) reqCase {
 		if rapid.Bool().Draw(rt, "fsizeEdge") {
 			f = []uint32{0, 1, 2, 768, 8192, 0xFFFFFFFF, 0x80000000}[rapid.IntRange(0, 6).Draw(rt, "fsizeE")]
 		}
-		c.Request = &commands.TestDownstreamFragmentSizeRequest{UserId: uid, FragmentSize: f}
+		// the client pads the probe's name up to the longest data string the domain allows
+		pad := 0
+		if rapid.Bool().Draw(rt, "padded") {
+			pad = util.GetLongestDataString(c.Domain) - 13 - rapid.IntRange(0, 9).Draw(rt, "padShort")
+			if pad < 0 {
+				pad = 0
+			}
+		}
+		c.Request = &commands.TestDownstreamFragmentSizeRequest{UserId: uid, FragmentSize: f, Padding: pad}
+		c.Near = pad > 0
 	default:
 		c.Kind = "packet"
 		r := &commands.PacketRequest{UserId: uid, LastAckedSeqNo: uint16(rapid.IntRange(0, 65535).Draw(rt, "ack"))}
@@ -210,6 +219,12 @@ func sameRequest(a, b commands.Request) string {
 			if !bytes.Equal(x.Packet.Data, y.Packet.Data) {
 				return fmt.Sprintf("payload differs: sent %d bytes got %d bytes, first difference at %d", len(x.Packet.Data), len(y.Packet.Data), vlib.FirstDiff(x.Packet.Data, y.Packet.Data))
 			}
+		}
+	case *commands.TestDownstreamFragmentSizeRequest:
+		y := b.(*commands.TestDownstreamFragmentSizeRequest)
+		// the padding is filler, not a field: it is not transmitted as a value
+		if x.UserId != y.UserId || x.FragmentSize != y.FragmentSize {
+			return fmt.Sprintf("fields differ: sent %+v got %+v", x, y)
 		}
 	case *commands.TestUpstreamEncoderRequest:
 		y := b.(*commands.TestUpstreamEncoderRequest)
